@@ -5,6 +5,7 @@ This class handles irregular working hours like "08:15 - 11:45, 13:15 - 16:30"
 for specific days of the week.
 """
 
+import functools
 from datetime import datetime
 from typing import TYPE_CHECKING, Any, ClassVar, Optional
 
@@ -34,6 +35,19 @@ except ImportError:
 
 if TYPE_CHECKING:
     from scriptplan.core.project import Project
+
+
+@functools.lru_cache(maxsize=None)
+def _load_zone(timezone_str: str) -> Any:
+    """ZoneInfo for the key, or None when there is no such zone.
+
+    Looked up once per key: a failing lookup searches the whole time zone path, and the
+    working-time test asks for the zone of a resource for every slot.
+    """
+    try:
+        return zoneinfo.ZoneInfo(timezone_str)
+    except Exception:
+        return None
 
 
 class WorkingHours:
@@ -237,8 +251,11 @@ class WorkingHours:
                 # Python 3.9+ with zoneinfo
                 from datetime import timezone as dt_timezone
 
+                tz = _load_zone(timezone_str)
+                if tz is None:
+                    # Invalid timezone - return original datetime
+                    return dt
                 utc_dt = dt.replace(tzinfo=dt_timezone.utc)
-                tz = zoneinfo.ZoneInfo(timezone_str)
                 return utc_dt.astimezone(tz)
             elif HAS_PYTZ:
                 # Fallback to pytz
